@@ -101,6 +101,14 @@ func (i *seqIterator) Next() bool {
 			i.Seq = nil
 			return true
 		}
+		// A sequence on the left is a part of this sequence: ((A, B), C) is (A, (B, C)).
+		for {
+			l, ok := i.Env.Resolve(s.Arg(0)).(Compound)
+			if !ok || l.Functor() != atomComma || l.Arity() != 2 {
+				break
+			}
+			s = atomComma.Apply(l.Arg(0), atomComma.Apply(l.Arg(1), s.Arg(1))).(Compound)
+		}
 		i.Seq = s.Arg(1)
 		i.current = s.Arg(0)
 		return true
